@@ -276,7 +276,10 @@ func suiteFuzzMode(seed uint64, n int, work string, sparse bool) {
 		fmode := r.Intn(2)
 		cprof := "mixed"
 		if sparse {
-			fmode, cprof = 2, "kv"
+			fmode = 2
+			if r.Bool() {
+				cprof = "kv"
+			}
 		}
 		st.run(optLine(fmode, r.Intn(2), r.Intn(2), r.Intn(2), []int{100, 200, 1000}[r.Intn(3)]))
 		// some content first, so that calls reach the interesting code
@@ -298,11 +301,25 @@ func suiteFuzzMode(seed uint64, n int, work string, sparse bool) {
 		}
 		st.run("commit")
 		st.run("rollback")
+		if sparse && i%4 == 0 {
+			// segments filled by one structure only (their key index stays empty), rotated several times
+			op := []string{"rpush x6c x6b x76616c75652d76616c75652d76616c7565", "sadd x73 x6b x6d656d6265722d6d656d6265722d31,x6d656d6265722d6d656d6265722d32", "zadd x7a x6b 1 x76616c75652d76616c75652d76616c7565"}[r.Intn(3)]
+			for t := 0; t < 8 && !st.dead; t++ {
+				st.run("begin w ?")
+				st.run(op)
+				if st.run("commit") == "panic" {
+					npanic++
+					emit("#SPEC panic in \"commit\" after %q in HintBPTSparseIdxMode", op)
+				}
+				st.run("rollback")
+			}
+		}
 		for j := 0; j < 60 && !st.dead; j++ {
 			var c string
 			sel := r.Intn(60)
-			if sparse {
-				// key/value calls, scans twice as often
+			if sparse && r.Chance(2, 3) {
+				// mostly key/value calls, scans more often (the other structures keep their share: a call that succeeds
+				// must not make a later Commit panic, whatever the index mode)
 				sel = []int{0, 1, 2, 3, 4, 5, 6, 7, 7, 8, 9, 10, 11, 12, 12, 46, 46, 46, 13, 44, 42, 43, 59, 59}[r.Intn(24)]
 			}
 			switch sel {
